@@ -23,6 +23,10 @@ class WorkerClosedError(RuntimeError):
 
 
 class PersistentWorker(Worker):
+    # child-side defaults, in case the child is terminated before `_init_child` had a chance to run
+    _counter = 0
+    _stop = False
+
     def __init__(self, target, _results_pipe, **kwargs):
         if _results_pipe is None:
             raise ValueError('_results_pipe should not be None')
